@@ -53,6 +53,9 @@ Definition split_host_port (hp : str) : option (str * str) :=
 Definition valid_port16 (p : str) : bool :=
   negb (nil_str p) && forallb is_digit p && (dec_value p 0 <=? 65535).
 
+(* isBlankOrControl: r <= ' ' || r == 0x7f *)
+Definition blank_or_control (c : N) : bool := (c <=? 32) || (c =? 127).
+
 (* parseProxy: None = error *)
 Definition parse_proxy (s0 : str) : option proxy :=
   let s := if parse_proxy_trims then trim_space s0 else s0 in
@@ -64,8 +67,8 @@ Definition parse_proxy (s0 : str) : option proxy :=
            match split_host_port hostport with
            | None => None
            | Some (h, p) =>
-               if parse_proxy_validates_port && negb (valid_port16 p) then None
-               else if parse_proxy_rejects_empty_host && nil_str h then None
+               if parse_proxy_validates_host && (nil_str h || existsb blank_or_control h) then None
+               else if parse_proxy_validates_port && negb (valid_port16 p) then None
                else match parse_mode mode with
                     | None => None
                     | Some m => Some {| p_mode := m; p_host := h; p_port := p |}
